@@ -435,3 +435,27 @@ def register(M):
     M('C15_native_opts', ['C15'], '__main__.py',
       "    options = ns['options']\n    if options is None:", "    options = ns['options']\n    if options is not None and options.startswith('-'):\n        options = ns['options'] = options.replace('-', '+', 1)\n    if options is None:",
       'native CLI turns a leading negative option into a positive one')
+
+    # ---- C19 ---------------------------------------------------------------
+    M('C19_indent', ['C19'], 'utils/util_str.py',
+      "    return prefix + text.replace('\\n', '\\n' + prefix)", "    return prefix + text.replace('\\n', '\\n' + prefix, 3)",
+      'utils.indent only indents the first four lines')
+    M('C19_nowant', ['C19'], 'runner.py',
+      "            if part.want:\n                want_text = '# doctest want:\\n'", "            if part.want and len(body_lines) < 2:\n                want_text = '# doctest want:\\n'",
+      'want comment blocks only emitted for the first two parts')
+    M('C19_star_next', ['C19'], 'runner.py',
+      "                for line in part.exec_lines:\n                    # TODO: this is not robust, need AST magic here",
+      "                _it = iter(part.exec_lines)\n                for line in _it:\n                    if ' import *' in line:\n                        next(_it, None)\n                        continue\n                    # TODO: this is not robust, need AST magic here",
+      'removing a star import also drops the line after it')
+    M('C19_disabled', ['C19'], 'runner.py',
+      "                if gather_all and example.is_disabled():", "                if command == 'all' and example.is_disabled():",
+      'force-disabled doctests are dumped')
+    M('C19_reverse', ['C19'], 'runner.py',
+      "        for part in example._parts:\n\n            if dump_config", "        for part in sorted(example._parts, key=lambda p: bool(p.want)):\n\n            if dump_config",
+      'parts with a want are emitted after the parts without')
+    M('C19_wantindent', ['C19'], 'runner.py',
+      "                want_text += utils.indent(part.want, '# ')", "                want_text += '# ' + part.want",
+      'only the first line of a want is commented out')
+    M('C19_noimportstar', ['C19'], 'runner.py',
+      "                    if ' import *' in line:\n                        continue", "                    if line.endswith(' import *'):\n                        continue",
+      'star imports followed by a comment are kept')
